@@ -8,6 +8,7 @@ from vpm.build import build_mdp
 from vpm.ref.mdp import RefMDP, closure
 
 PROPERTY_ID = "C06"
+FUZZ = {"props": ["views", "roundtrip", "reach"], "quick": [3, 800], "thorough": [8, 30000]}
 RULE = ("MDP specs with labels of mixed kinds (ints, strings, tuples, frozendicts, unsortable mixes), inferred or "
         "explicit state/action lists, zero-probability entries in next-state and initial distributions, "
         "state-dependent action sets, explicit and implicit absorbing states; max_states cut-offs 1..|S|+1. "
